@@ -136,7 +136,7 @@ pub struct TreeOutcome {
     pub failures: Vec<(Case, world_f::Violation)>,
     pub execs: u64,
     pub plans_total: usize,
-    pub plans_run: Vec<(String, bool)>, // (label, fired)
+    pub plans_run: Vec<(String, bool)>, // (label + hash of the plan text, fired)
     pub trace_len: usize,
     pub sample: Option<Value>,
 }
@@ -217,7 +217,7 @@ pub fn run_tree(seed: u64, thorough: bool, scratch: &Path) -> Result<TreeOutcome
         let (v, res) = exec_case(&case, scratch, &expected)?;
         out.execs += 1;
         let fired = res.trace.iter().any(|t| t.detail.contains("err") || t.detail.contains("kill") || t.detail.contains("partial") || t.detail.contains("short") || t.detail.contains("eintr"));
-        out.plans_run.push((plan.label.clone(), fired));
+        out.plans_run.push((format!("{}#{}", plan.label, rng::fnv(&plan.text) % 1_000_000), fired));
         for x in v {
             out.failures.push((case.clone(), x));
         }
@@ -246,7 +246,7 @@ pub fn run_tree(seed: u64, thorough: bool, scratch: &Path) -> Result<TreeOutcome
         let (v, res) = exec_case(&case, scratch, &expected)?;
         out.execs += 1;
         let n_fired = res.trace.iter().filter(|t| t.detail.contains("err") || t.detail.contains("kill") || t.detail.contains("partial") || t.detail.contains("eintr")).count();
-        out.plans_run.push((format!("2nd:{}", plan.label.split('+').map(|l| l.split('/').take(2).collect::<Vec<_>>().join("/")).collect::<Vec<_>>().join("+")), n_fired >= 2));
+        out.plans_run.push((format!("2nd:{}#{}", plan.label.split('+').map(|l| l.split('/').take(2).collect::<Vec<_>>().join("/")).collect::<Vec<_>>().join("+"), rng::fnv(&plan.text) % 1_000_000), n_fired >= 2));
         for x in v {
             out.failures.push((case.clone(), x));
         }
@@ -290,10 +290,11 @@ pub fn worker(tier: &str, seed: u64, from: u64, to: u64, _extra: &[String]) -> A
                     agg.distinct.insert(h);
                     if *fired {
                         agg.distinct_nontrivial.insert(h);
-                        if label.starts_with("2nd:") {
-                            agg.fault(label, 1);
+                        let kind = label.split('#').next().unwrap_or(label);
+                        if kind.starts_with("2nd:") {
+                            agg.fault(kind, 1);
                         } else {
-                            agg.fault(label.split('/').take(2).collect::<Vec<_>>().join("/").as_str(), 1);
+                            agg.fault(kind.split('/').take(2).collect::<Vec<_>>().join("/").as_str(), 1);
                         }
                     } else {
                         agg.count("plans_that_did_not_fire", 1);
